@@ -106,6 +106,10 @@ def obligations(ctx):
     for (rsz, asz) in ((3, 1), (2, 2), (1, 3), (2, 0)):
         for (nn, avx) in ((4, 0), (8, 1)):
             obs.append(ag.api_ob(t, 2, nn, 0, avx, rsz, asz, inplace=True, tag="idft-inplace/"))
+    # the complex-vector kernels that overwrite (mul, convolution) or accumulate into (addmul) their output: the output is arbitrary data before the call and every
+    # result term must be a term of the operands only (shared analysis with C17; the windowed convolution includes the all-zero coefficients past the product's end)
+    from vf.props import c17
+    obs += [o for o in c17.kernel_obs(ctx) if o.name.startswith("conv/") or (o.name.startswith("fftvec/") and "_mul_" in o.name and "/m=4" in o.name)]
     # values, not only extents: the product pipelines with their scratch buffers 8 / 24 / 56 bytes past a 64-byte boundary return the same exact polynomial
     # (same analysis as C01 / C02), N = 16 so that several reim4 blocks are processed
     from vf.props import c01
